@@ -255,4 +255,93 @@ theorem run_spec (l : Layer) (hc : Coherent l) (ops : List Op) (hs : SafeRun l o
     obtain ⟨i1, i2⟩ := ih (step l op).2 (step_coherent l hc op h1) h2
     exact ⟨by simp only [run, specRun, step_out l hc op, i1], i2⟩
 
+/-! ### checkpoints -/
+
+theorem setCacheValue_checkpoint (c : CacheState) (k : Bytes) (v : Option Bytes) (a b : Bool) :
+    (setCacheValue c k v a b).checkpoint = c.checkpoint := rfl
+
+/-- a plain operation on the top cache store keeps its checkpoint and leaves the
+parent's view alone. -/
+theorem topPlain_step (c : CacheState) (p : Layer) (hc : Coherent (.cache c p)) (op : Op)
+    (h : op.topPlain = true) :
+    ∃ c' p', (step (.cache c p) op).2 = .cache c' p' ∧ c'.checkpoint = c.checkpoint ∧
+      view p' = view p ∧ Coherent (.cache c' p') := by
+  have hco : Coherent (step (.cache c p) op).2 := by
+    apply step_coherent _ hc
+    cases op with
+    | set d k v => cases d <;> simp_all [Op.topPlain, Safe, NoCleanAbove]
+    | del d k => cases d <;> simp_all [Op.topPlain, Safe, NoCleanAbove]
+    | wcp d => simp [Op.topPlain] at h
+    | _ => trivial
+  have hp : Coherent p := hc.1
+  cases op with
+  | newCache => simp [Op.topPlain] at h
+  | newPfx q => simp [Op.topPlain] at h
+  | write d => simp [Op.topPlain] at h
+  | cp d => simp [Op.topPlain] at h
+  | wcp d => simp [Op.topPlain] at h
+  | get d k =>
+    cases d with
+    | succ d => simp [Op.topPlain] at h
+    | zero =>
+      cases k with
+      | none => exact ⟨c, p, rfl, rfl, rfl, hc⟩
+      | some k =>
+        simp only [step, Layer.at', Layer.apiGet, Layer.get] at hco ⊢
+        cases hg : OMap.get c.cache k with
+        | some cv => exact ⟨c, p, rfl, rfl, rfl, hc⟩
+        | none =>
+          simp only [hg] at hco
+          exact ⟨_, _, rfl, rfl, (get_spec p hp k).2.1, hco⟩
+  | has d k =>
+    cases d with
+    | succ d => simp [Op.topPlain] at h
+    | zero =>
+      cases k with
+      | none => exact ⟨c, p, rfl, rfl, rfl, hc⟩
+      | some k =>
+        simp only [step, Layer.at', Layer.apiHas, Layer.has, Layer.get] at hco ⊢
+        cases hg : OMap.get c.cache k with
+        | some cv => exact ⟨c, p, rfl, rfl, rfl, hc⟩
+        | none =>
+          simp only [hg] at hco
+          exact ⟨_, _, rfl, rfl, (get_spec p hp k).2.1, hco⟩
+  | set d k v =>
+    cases d with
+    | succ d => simp [Op.topPlain] at h
+    | zero =>
+      cases k with
+      | none => exact ⟨c, p, rfl, rfl, rfl, hc⟩
+      | some k =>
+        cases v with
+        | none => exact ⟨c, p, rfl, rfl, rfl, hc⟩
+        | some v => exact ⟨_, _, rfl, rfl, rfl, hco⟩
+  | del d k =>
+    cases d with
+    | succ d => simp [Op.topPlain] at h
+    | zero =>
+      cases k with
+      | none => exact ⟨c, p, rfl, rfl, rfl, hc⟩
+      | some k => exact ⟨_, _, rfl, rfl, rfl, hco⟩
+  | iter d asc s e =>
+    cases d with
+    | succ d => simp [Op.topPlain] at h
+    | zero => exact ⟨_, _, rfl, rfl, (iter_spec p hp s e asc).2.1, hco⟩
+  | hascp d =>
+    cases d with
+    | succ d => simp [Op.topPlain] at h
+    | zero => exact ⟨c, p, rfl, rfl, rfl, hc⟩
+
+theorem topPlain_run (c : CacheState) (p : Layer) (hc : Coherent (.cache c p)) (ops : List Op)
+    (h : ∀ op ∈ ops, op.topPlain = true) :
+    ∃ c' p', (run (.cache c p) ops).2 = .cache c' p' ∧ c'.checkpoint = c.checkpoint ∧
+      view p' = view p ∧ Coherent (.cache c' p') := by
+  induction ops generalizing c p with
+  | nil => exact ⟨c, p, rfl, rfl, rfl, hc⟩
+  | cons op ops ih =>
+    obtain ⟨c1, p1, e1, k1, v1, h1⟩ := topPlain_step c p hc op (h op (by simp))
+    obtain ⟨c2, p2, e2, k2, v2, h2⟩ := ih c1 p1 h1 (fun o ho => h o (List.mem_cons_of_mem _ ho))
+    refine ⟨c2, p2, ?_, k2.trans k1, v2.trans v1, h2⟩
+    simp only [run, e1, e2]
+
 end GnoVerif.C22
